@@ -850,6 +850,12 @@ def _digest(s, st0, a, st):
                 if tr and tr[-1][2] == 'started':
                     trail[oid] = tr[:-1] + ((tr[-1][0], tr[-1][1], e[-1]),)
         elif k == 'env' and e[1] == 'timer' and 'expired' in e:
+            # C10: the timeouts that govern a call are the ones it was given (timeout_get) or the pool's (get): a deadline of a kind
+            # whose effective timeout is None must never fire
+            if cur is not None and e[-1] in ('wait', 'create', 'recycle'):
+                tv_ = cur['tv'] if cur['tv'] is not None else s.cfg['pool_timeouts']
+                if tv_[('wait', 'create', 'recycle').index(e[-1])] is None:
+                    vio('C10', f'a {e[-1]} deadline fired in a call whose {e[-1]} timeout is None ({"per-call timeouts " + repr(tuple(cur["tv"])) if cur["tv"] is not None else "get()"}; pool-level {tuple(s.cfg["pool_timeouts"])})')
             # a timeout cut the step the object in hand was in
             for oid in (cur['inhand'] if cur else ()):
                 tr = trail.get(oid, ())
